@@ -328,6 +328,11 @@ func Scenarios() []*Scenario {
 	add(&Scenario{Name: "init-volready-then-ok", Entry: "initiator/voluntary-reports-ready", Neg: "std", WantOK: true, Feats: []FeatSpec{fVol, fVol2},
 		Outs:  map[int][]SVal{0: {{K: "out", Mask: bReady}}, 1: {{K: "out", Mask: bAuthn}}},
 		Clear: Stream{srvHeader("1.0", true), featuresSeg(false, advCustom(0, fVol, false, false), advCustom(1, fVol2, true, false))}})
+	// (bind is prohibited once Ready is set: it is still negotiated after a voluntary feature
+	// reported Ready, because that bit is not applied before the end of the list)
+	add(&Scenario{Name: "init-volready-then-bind", Entry: "initiator/voluntary-reports-ready", Neg: "std", Bits: bSecure | bAuthn, WantOK: true, Feats: []FeatSpec{fVol, fBind},
+		Outs:  map[int][]SVal{0: {{K: "out", Mask: bReady}}},
+		Clear: Stream{srvHeader("1.0", true), featuresSeg(false, advCustom(0, fVol, false, false), advBind(1)), bindResult(false)}})
 	add(&Scenario{Name: "recv-volready-then-required", Entry: "receiver/voluntary-reports-ready", Neg: "std", Recv: true, WantOK: true,
 		Feats: []FeatSpec{fVol, FeatSpec{Kind: "custom", Space: "urn:x:req", Local: "q", Neg: true, LReq: true}},
 		Outs:  map[int][]SVal{0: {{K: "out", Mask: bReady}}, 1: {{K: "out"}}},
